@@ -933,7 +933,7 @@ def scan_lines(rng, tier):
     thorough: oscan of every day 0001-01-01..9999-12-31 at 00:00:00, 12:00:00, 23:59:59 (each with a day-dependent
     millisecond part) + scan of every 7th day and of 4 days around every 1 Jan / 28 Feb; osecs of every second of 200
     sampled days + secs of 16 of them.  quick: oscan every 61st day, scan every 499th day (seeded residues) + the
-    year boundaries of a seeded 1/8 of the years and of all century years; osecs of 1 day + secs of 6 hours of another."""
+    year boundaries of a seeded 1/8 of the years, of all century years and their neighbours and of every year 1890..2110 (both ends of the fast path); osecs of 1 day + secs of 6 hours of another."""
     lines = []
     inst = 0
     CH = 250
@@ -959,7 +959,7 @@ def scan_lines(rng, tier):
         strided("scan", 7, rng.randrange(7))
     r8 = rng.randrange(8)
     for y in range(1, 10000):
-        if quick and y % 8 != r8 and y % 100 != 0 and y not in (1, 1903, 1904, 2099, 2100, 9999):
+        if quick and y % 8 != r8 and y % 100 not in (0, 1, 99) and not (1890 <= y <= 2110) and y not in (1, 2, 9998, 9999):
             continue
         a = max(DAY_MIN, day_of(y, 1, 1) - 2)
         lines.append("scan %d %d %d 1" % (a, 4, sods[(y + r8) % 3]))
@@ -991,7 +991,7 @@ def instants_of(line):
 
 
 EXHAUSTIVE = {"quick": "sample only: every 61st day (implementation vs built-in oracle) and every 499th day (vs model) of 0001-01-01..9999-12-31 at 00:00:00, "
-                       "12:00:00, 23:59:59, the days around 1 January / 28 February of 1/8 of the years and all century years, every second of one day; "
+                       "12:00:00, 23:59:59, the days around 1 January / 28 February of 1/8 of the years, all century years and their neighbours and every year 1890..2110, every second of one day; "
                        "complete: all 2880 zone offsets -23:59..+23:59, every single byte and every 2-byte string over the focus alphabet",
               "thorough": "every day 0001-01-01..9999-12-31 at 00:00:00, 12:00:00 and 23:59:59 (3 x 3 652 059 instants, each with a millisecond part) on the "
                           "implementation against the built-in days-from-civil oracle, every 7th day and 8 days around the start and the end of February of "
